@@ -151,6 +151,8 @@ operator- (mpz_class v)
     case signedness::sign:
       if (v.m_i == INT64_MIN)
 	return mpz_class {(uint64_t) INT64_MAX + 1, signedness::unsign};
+      if (v.m_i > 0)
+	return mpz_class {(uint64_t) -v.m_i, signedness::sign};
       return mpz_class {(uint64_t) -v.m_i, signedness::unsign};
 
     case signedness::unsign:
@@ -294,10 +296,14 @@ operator/ (mpz_class v1, mpz_class v2)
       neg = ! neg;
     }
 
-  if (neg)
-    v1 = v1 + (v2 - 1);
+  // Both are non-negative now.  Round the magnitude of a negative
+  // quotient up, so that the result is rounded towards negative
+  // infinity.
+  uint64_t q = v1.m_u / v2.m_u;
+  if (neg && v1.m_u % v2.m_u != 0)
+    ++q;
 
-  mpz_class ret {v1.m_u / v2.m_u, signedness::unsign};
+  mpz_class ret {q, signedness::unsign};
   if (neg)
     ret = -ret;
 
@@ -310,6 +316,21 @@ operator% (mpz_class v1, mpz_class v2)
   if (v2.m_u == 0)
     int_error (describe_div_0 (v1, v2, '%'));
 
-  mpz_class d = v1 / v2;
-  return v1 - v2 * d;
+  // Compute the remainder from magnitudes.  The result has the sign
+  // of the divisor and is smaller than it in magnitude, so unlike
+  // v1 - v2 * (v1 / v2), this never overflows.
+  bool neg1 = v1 < 0;
+  bool neg2 = v2 < 0;
+  uint64_t a = neg1 ? (-v1).m_u : v1.m_u;
+  uint64_t b = neg2 ? (-v2).m_u : v2.m_u;
+
+  uint64_t m = a % b;
+  if (m != 0 && neg1 != neg2)
+    m = b - m;
+
+  mpz_class ret {m, signedness::unsign};
+  if (neg2)
+    ret = -ret;
+
+  return ret;
 }
